@@ -205,7 +205,7 @@ func solveUnit(sc *Script, opt solveOpts) []ObResult {
 		}
 	}
 	// Obligations left over: besides the stand-alone race (solveFallback), the whole incremental script is
-	// run once more on z3 with six times the per-query limit and a process budget to match. Some
+	// run once more on z3 with three times the per-query limit and a process budget to match. Some
 	// obligations (quantified array facts around the AEAD functions) are proved in a second or two in
 	// the context of the unit's earlier queries and by no solver stand-alone; if the first pass was cut
 	// short - a busy machine - the stand-alone race alone would report them as undecided.
@@ -223,7 +223,7 @@ func solveUnit(sc *Script, opt solveOpts) []ObResult {
 		go func() {
 			opt.sem <- struct{}{}
 			defer func() { <-opt.sem }()
-			out, _ := runSolverBudget(actx, solvers[0], incFile, scaled(opt.quickMs*6), scaled(opt.quickMs*12))
+			out, _ := runSolverBudget(actx, solvers[0], incFile, scaled(opt.quickMs*3), scaled(opt.quickMs*6))
 			again <- out
 		}()
 	}
@@ -404,7 +404,7 @@ func solveFallback(sc *Script, opt solveOpts, dir string, idx []int, results map
 			}
 			// second chance: nothing answered within the budget. On a loaded machine a query that
 			// normally takes a few seconds can miss it; before an obligation is reported as undecided
-			// (which ends the run with a VIOLATION line) it is tried once more, stand-alone, with five
+			// (which ends the run with a VIOLATION line) it is tried once more, stand-alone, with three
 			// times the budget, on the two solver families side by side.
 			ch2 := make(chan res, 2)
 			ctx2, cancel2 := context.WithCancel(context.Background())
@@ -418,7 +418,7 @@ func solveFallback(sc *Script, opt solveOpts, dir string, idx []int, results map
 						ch2 <- res{sp.name, "cancelled", "", 0}
 						return
 					}
-					o, s := runSolver(ctx2, sp, file, scaled(opt.fallbackMs*5))
+					o, s := runSolver(ctx2, sp, file, scaled(opt.fallbackMs*3))
 					ch2 <- res{sp.name, firstVerdict(o), o, s}
 				}(sp)
 			}
